@@ -484,6 +484,51 @@ func runSchedDiff(outDir string, seed int64, tier string) {
 			api := func(n *vnode) error { return n.svc.ProcessOperation(opToDTO(&res)) }
 			return api, 3, nil
 		}}
+	// the client answers the very operation the tick is creating (an operator's tool that polls the pending operations and
+	// answers at once; operation ids are derived from their content, so the answer can even be ready beforehand): before the
+	// tick there is no such operation (the request is refused), after it the answer is posted and the operation retired - and
+	// in between the operation is never lost with its answer unposted
+	answerNew := schedScenario{name: "ProcessOperation(result of the operation the tick is creating) || poll(the proposal that creates it)",
+		prepare: func(c *cluster, obs *vnode, round string) (func(n *vnode) error, int, error) {
+			obs.silent = true
+			for _, nd := range c.nodes {
+				c.pollOnce(nd, 0)
+			}
+			if err := c.proposeData(c.nodes[1], round, map[string][]byte{"new": []byte("the batch whose request is answered at once")}); err != nil {
+				return nil, 0, err
+			}
+			// a dry run to learn the operation and the machine's answer to it, then back to the state before it
+			dry, _ := os.MkdirTemp(obs.dir, "dry")
+			defer os.RemoveAll(dry)
+			if err := snapshotObs(c, obs, dry); err != nil {
+				return nil, 0, err
+			}
+			if _, err := c.pollOnce(obs, 1); err != nil {
+				return nil, 0, err
+			}
+			ops := obs.pendingOps()
+			if len(ops) != 1 {
+				return nil, 0, fmt.Errorf("after the proposal the observed node has %d pending operations, expected the signing request", len(ops))
+			}
+			path, err := obs.air.ProcessOperation(*ops[0], true)
+			if err != nil {
+				return nil, 0, err
+			}
+			rb, _ := os.ReadFile(path)
+			os.Remove(path)
+			var res types.Operation
+			if err := json.Unmarshal(rb, &res); err != nil {
+				return nil, 0, err
+			}
+			if err := restoreObs(c, obs, dry); err != nil {
+				return nil, 0, err
+			}
+			if n := len(obs.pendingOps()); n != 0 {
+				return nil, 0, fmt.Errorf("after going back the observed node still has %d pending operations", n)
+			}
+			api := func(n *vnode) error { return n.svc.ProcessOperation(opToDTO(&res)) }
+			return api, 1, nil
+		}}
 	// invitation of a second round arrives while the invitation of the first is being approved
 	approve := schedScenario{name: "ApproveParticipation(invitation of round X) || poll(opening proposal of round Y -> new invitation)",
 		prepare: func(c *cluster, obs *vnode, round string) (func(n *vnode) error, int, error) {
@@ -789,7 +834,7 @@ func runSchedDiff(outDir string, seed int64, tier string) {
 				return nil, 0, fmt.Errorf("the observed node never got a %s operation", step)
 			}}
 	}
-	scs := []schedScenario{lateAnswer, approve, reset, mkSaveOffset(true), mkSaveOffset(false), mkFinishReinit(false, false), mkFinishReinit(true, false), mkFinishReinit(true, true), finishVsOtherReinit,
+	scs := []schedScenario{lateAnswer, answerNew, approve, reset, mkSaveOffset(true), mkSaveOffset(false), mkFinishReinit(false, false), mkFinishReinit(true, false), mkFinishReinit(true, true), finishVsOtherReinit,
 		mkMidDKG("state_dkg_commits_await_confirmations"), mkMidDKG("state_dkg_deals_await_confirmations"),
 		mkMidDKG("state_dkg_responses_await_confirmations"), mkMidDKG("state_dkg_master_key_await_confirmations")}
 	for _, sc := range scs {
